@@ -5,7 +5,7 @@ import ast
 
 from ..lin import Lin
 from ..avals import *   # noqa
-from ..decide import Runs, need_ge0, need_eq0, definite, soft
+from ..decide import benign_unknown, Runs, need_ge0, need_eq0, definite, soft
 from ..report import Ob, PROVED, REFUTED, UNDECIDED, func_where, ASSUMPTIONS, Failure
 from ..model import norm_text, AnalysisError
 from . import common
@@ -82,7 +82,7 @@ def check(prog, res, tier):
             return fails
         res.add(runs.judge('C19.a', 'mci_ipm_encode: input file/encoding/format reach the reader, output file/encoding/format the writer; all records flow through; writer finalised',
                            func_where(fi), 'IpmWriter(out_file, encoding=out_encoding, blocked=...) / IpmReader(in_file, encoding=in_encoding, ...)', chk,
-                           rule='C19.a.mci_ipm_encode', unknown_ok=lambda u_: True))
+                           rule='C19.a.mci_ipm_encode', unknown_ok=benign_unknown))
 
     # ---- C19.a mideu.convert
     if prog.has_func('cli.mideu.convert'):
@@ -145,7 +145,7 @@ def check(prog, res, tier):
             return fails
         res.add(runs_m.judge('C19.a', 'mideu convert: ebcdic -> (cp500 to latin1), ascii -> (latin1 to cp500); blocking polarity equal on both sides; all records flow through',
                              func_where(fi), 'IpmWriter(out_file, encoding=out_encoding, blocked=...) / IpmReader(in_file, encoding=in_encoding, ...)',
-                             chk_m, rule='C19.a.mideu', unknown_ok=lambda u_: True))
+                             chk_m, rule='C19.a.mideu', unknown_ok=benign_unknown))
 
     # ---- C19.d parameter file tools
     for q, style in (('cli.mci_ipm_param_encode.mci_ipm_param_encode', 'formats'), ('cli.paramconv.mci_ipm_param_encode', 'blocked')):
@@ -233,7 +233,7 @@ def check(prog, res, tier):
             return fails
         res.add(runs_p.judge('C19.d', f'{fi.short}: every record is decoded with the input encoding, encoded with the output encoding and written, one-to-one and in order',
                              func_where(fi), '(record.decode(in_encoding) ...), (record.encode(out_encoding) ...), write_many', chk_p,
-                             rule=f'C19.d.{fi.short}', unknown_ok=lambda u_: True))
+                             rule=f'C19.d.{fi.short}', unknown_ok=benign_unknown))
 
     # ---- C19.a paramconv command: sourceformat -> codec pair, blocking option
     if prog.has_func('cli.paramconv.cli_run'):
@@ -294,7 +294,7 @@ def check(prog, res, tier):
             return fails
         res.add(runs_pc.judge('C19.a', 'paramconv: ebcdic -> (cp500 to latin1), ascii -> (latin1 to cp500); blocked = not no1014blocking; files opened binary',
                               func_where(pfi), "in_encoding = 'cp500'; out_encoding = 'latin1' / reverse", chk_pc, rule='C19.a.paramconv',
-                              unknown_ok=lambda u_: True))
+                              unknown_ok=benign_unknown))
 
     # ---- C19.b get_config
     if prog.has_func('cli.mci_ipm_encode.get_config'):
